@@ -48,6 +48,9 @@ type byzPlan struct {
 	Mute bool
 	// ResendPayloads: every payload transmission is sent this many extra times.
 	ResendPayloads int
+	// ReverseVersionsFor: these nodes receive the broadcast versions in the opposite order (the first version is held
+	// until the second one is transmitted).
+	ReverseVersionsFor map[uint16]bool
 	// WithholdPayloadFrom: these nodes get no payload at all (only vouchers).
 	WithholdPayloadFrom map[uint16]bool
 }
@@ -201,6 +204,7 @@ func (w *oworld) isPayload(data []byte) bool { _, ok := w.matchPayload(data); re
 func (w *oworld) payloadVersion(data []byte) (backend.Payload, bool) { return w.matchPayload(data) }
 
 func (w *oworld) byzInterceptor(id uint16, plan *byzPlan) simnet.Interceptor {
+	held := map[uint16][]simnet.Outgoing{}
 	return func(n *simnet.Net, src uint16, typ uint8, topic, data []byte, dsts []uint16) []simnet.Outgoing {
 		var outs []simnet.Outgoing
 		if typ != uint8(tss.MsgTypeMPC) {
@@ -233,6 +237,16 @@ func (w *oworld) byzInterceptor(id uint16, plan *byzPlan) simnet.Interceptor {
 				if !ok {
 					continue
 				}
+			}
+			if p.Kind == 'B' && plan.ReverseVersionsFor[d] {
+				if p.Version == 1 {
+					held[d] = append(held[d], simnet.Outgoing{Dst: d, Type: typ, Topic: topic, Data: data, Tag: "v1-held"})
+					continue
+				}
+				outs = append(outs, simnet.Outgoing{Dst: d, Type: typ, Topic: topic, Data: data, Tag: fmt.Sprintf("v%d-first", p.Version)})
+				outs = append(outs, held[d]...)
+				held[d] = nil
+				continue
 			}
 			outs = append(outs, simnet.Outgoing{Dst: d, Type: typ, Topic: topic, Data: data, Tag: fmt.Sprintf("v%d", p.Version)})
 			for k := 0; k < plan.ResendPayloads; k++ {
